@@ -1008,5 +1008,20 @@ Example argument_index_examples :
   GoFmtIdx.fmt_go3 "intDiv(timestamp_ns, %d) * %[1]d" [GoFmtInt.OInt "int64" 15000000000] = Some "intDiv(timestamp_ns, 15000000000) * 15000000000" /\
   GoFmtIdx.fmt_go3 "%[3]d|%[0]s|%[1]d %s" [GoFmtInt.OInt "int" 1; GoFmtInt.OStr "b"] = Some "%!d(BADINDEX)|%!s(BADINDEX)|1 b" /\
   GoFmtIdx.mkformat3 [GoFmtInt.OStr "x"; GoFmtInt.OInt "int" 5] ["a("; ", "; ")"] [2; 1] = "a(%[2]d, %[1]s)" /\
-  GoFmtIdx.idx_ok [GoFmtInt.OStr "x"; GoFmtInt.OInt "int" 5] 2 = true.
+  GoFmtIdx.idx_ok [GoFmtInt.OStr "x"; GoFmtInt.OInt "int" 5] 2 = true /\
+  GoFmtIdx.fmt_go3 "%d.%09d" [GoFmtInt.OInt "int64" 1700000000; GoFmtInt.OInt "int64" 5] = Some "1700000000.000000005" /\
+  GoFmtIdx.pad0 9 (-5) = "-00000005" /\ GoFmtIdx.pad0 3 12345 = "12345" /\ GoFmtIdx.pad0 0 0 = "0".
 Proof. exact GoFmtIdxProofs.fmt3_examples. Qed.
+
+(* the one flagged directive of the repository, %0<w>d (secondsText's %d.%09d): for every width digit, every integer and all texts
+   without a percent sign fmt prints the zero-padded number, a text over "-0123456789" (for EVERY width and integer) *)
+Theorem zero_padded_numeric_verb_prints_a_number : forall pre post ty z w, GoFmt.pct_free pre = true -> GoFmt.pct_free post = true -> 1 <= w <= 9 ->
+  GoFmtIdx.fmt_go3 (pre ++ String "%" (String "0" (String (GoFmtIdx.idx_digit w) (String "d" post)))) [GoFmtInt.OInt ty z]
+    = Some (pre ++ GoFmtIdx.pad0 w z ++ post)
+  /\ over GoFmtInt.dec_alphabet (GoFmtIdx.pad0 w z) = true.
+Proof. exact GoFmtIdxProofs.go3_zero_padded. Qed.
+Print Assumptions zero_padded_numeric_verb_prints_a_number.
+
+Theorem zero_padded_integer_is_over_the_decimal_alphabet : forall w z, over GoFmtInt.dec_alphabet (GoFmtIdx.pad0 w z) = true.
+Proof. exact GoFmtIdxProofs.pad0_over_dec_alphabet. Qed.
+Print Assumptions zero_padded_integer_is_over_the_decimal_alphabet.
